@@ -17,6 +17,8 @@ class WriterWoSequence:
     else:
       saved = self.sequence
       self.sequence = "*"
-      retval = super().__str__()
-      self.sequence = saved
+      try:
+        retval = super().__str__()
+      finally:
+        self.sequence = saved
       return retval
